@@ -41,7 +41,9 @@ class BaseRequest:
         for err_cls in (err.__class__, except_class):
             out_err = errors_map.get(err_cls)
             if out_err:
-                err = out_err
+                # `out_err` is shared between requests: do not let it collect a traceback
+                # (with frames, environ and body of every request) each time it is raised
+                err = out_err.with_traceback(None)
                 break
         raise err
 
